@@ -42,6 +42,9 @@ def shapes(tier):
     for nt in range(1, (2 if tier == "quick" else 4) + 1):
         for clean in (True, False):
             out.append({"kind": "cov", "nt": nt, "clean": clean, "tref": "default"})
+    # uncertainties in another unit than the velocities
+    out.append({"kind": "1d", "nt": 2, "clean": True, "tref": "default", "err_unit": True})
+    out.append({"kind": "cov", "nt": 2, "clean": False, "tref": "default", "err_unit": True})
     # time input kind chosen against the parity rule of the harness (default: float array for odd, Time for even n)
     for nt in ((2, 3, 4) if tier == "quick" else (2, 3, 4, 5, 6)):
         out.append({"kind": "1d", "nt": nt, "clean": True, "tref": "default", "tin": "time" if nt % 2 else "array"})
@@ -53,6 +56,8 @@ def _mk_inputs(shape, st):
     clean = shape["clean"]
     u = st.u
     vunit = units.sym_unit("rv", units.km / units.s)
+    # the uncertainties may be quoted in another (equivalent) unit than the velocities
+    eunit = units.sym_unit("rverr", units.km / units.s) if shape.get("err_unit") else vunit
     t, rv, err, flags = [], [], [], {}
     for i in range(nt):
         for nm, lst in (("t", t), ("rv", rv), ("err", err)):
@@ -63,12 +68,12 @@ def _mk_inputs(shape, st):
                 lst.append(symnp.FinCell(v.e, f))
             else:
                 lst.append(v)
-    inp = {"t": t, "rv": rv, "vunit": vunit, "flags": flags}
+    inp = {"t": t, "rv": rv, "vunit": vunit, "eunit": eunit, "flags": flags}
     if shape["kind"] == "1d":
         for e in err:
             core.assume(SN(e.e) > 0)
         inp["err"] = err
-        rv_err = units.Quantity(symnp.SymArray(symnp._obj(err), symnp._F8), vunit)
+        rv_err = units.Quantity(symnp.SymArray(symnp._obj(err), symnp._F8), eunit)
     else:
         cov = [[None] * nt for _ in range(nt)]
         for i in range(nt):
@@ -81,7 +86,7 @@ def _mk_inputs(shape, st):
                 else:
                     cov[i][j] = v
         inp["cov"] = cov
-        rv_err = units.Quantity(symnp.SymArray(symnp._obj(cov), symnp._F8), vunit ** 2)
+        rv_err = units.Quantity(symnp.SymArray(symnp._obj(cov), symnp._F8), eunit ** 2)
     inp["rv_q"] = units.Quantity(symnp.SymArray(symnp._obj(rv), symnp._F8), vunit)
     inp["rv_err_q"] = rv_err
     inp["t_arr"] = symnp.SymArray(symnp._obj(t), symnp._F8)
@@ -157,7 +162,7 @@ def _describe(shape, inp, extra=None):
         nt = shape["nt"]
         out = {"t": [mv(x) for x in inp["t"]], "rv": [mv(x) for x in inp["rv"]],
                "fin": {"%s_%s" % (k[0], "_".join(str(i) for i in k[1:])): bool(core.model_value(m, v)) for k, v in inp["flags"].items()},
-               "vscale": mv(inp["vunit"].scale)}
+               "vscale": mv(inp["vunit"].scale), "escale": mv(inp["eunit"].scale)}
         if "err" in inp:
             out["err"] = [mv(x) for x in inp["err"]]
         if "cov" in inp:
@@ -244,6 +249,7 @@ def _mk_probe(shape):
     nt = shape["nt"]
     inp = {"t": [core.real("t_%d" % i) for i in range(nt)], "rv": [core.real("rv_%d" % i) for i in range(nt)],
            "flags": {}, "vunit": units.Unit(core.real("unit_rv"), (units.km / units.s).dims, "rv"), "t_ref": None}
+    inp["eunit"] = units.Unit(core.real("unit_rverr"), (units.km / units.s).dims, "rverr") if shape.get("err_unit") else inp["vunit"]
     if shape["kind"] == "1d":
         inp["err"] = [core.real("err_%d" % i) for i in range(nt)]
     else:
@@ -291,7 +297,7 @@ def _check_object(sink, path, shape, inp, kept, d, tag, desc):
     sink.check(path, tag + ".sorted", core.SB(srt), site="RVData.__init__", describe=desc)
     units_ok = d.rv.unit is inp["vunit"] or d.rv.unit == inp["vunit"]
     eu = d.rv_err.unit
-    units_ok = units_ok and (eu == inp["vunit"] if shape["kind"] == "1d" else eu == inp["vunit"] ** 2)
+    units_ok = units_ok and (eu == inp["eunit"] if shape["kind"] == "1d" else eu == inp["eunit"] ** 2)
     tt = d.t
     units_ok = units_ok and isinstance(tt, units.Time) and all(z3.eq(L(a), L(b)) for a, b in zip(_cells(tt), t_out))
     sink.check(path, tag + ".units", core.SB(z3.BoolVal(bool(units_ok))), site="RVData.__init__", describe=desc)
@@ -327,18 +333,18 @@ def _check_ivar_cov(sink, path, shape, inp, d, desc):
         err = _cells(d.rv_err)
         ivc = _cells(iv)
         ok = ivc is not None and ivc.shape == (n,)
-        cl = z3.And([L(ivc[k]) * L(err[k]) * L(err[k]) == 1 for k in range(n)] + [iv.unit.same_as(inp["vunit"] ** -2)]) if ok else z3.BoolVal(False)
+        cl = z3.And([L(ivc[k]) * L(err[k]) * L(err[k]) == 1 for k in range(n)] + [iv.unit.same_as(inp["eunit"] ** -2)]) if ok else z3.BoolVal(False)
         sink.check(path, "ivar.reciprocal_variance", core.SB(cl), site="RVData.ivar", describe=desc)
         cc = _cells(cv)
         ok = cc is not None and cc.shape == (n, n)
-        cl = z3.And([L(cc[k, l]) == (L(err[k]) * L(err[k]) if k == l else 0) for k in range(n) for l in range(n)] + [cv.unit.same_as(inp["vunit"] ** 2)]) if ok else z3.BoolVal(False)
+        cl = z3.And([L(cc[k, l]) == (L(err[k]) * L(err[k]) if k == l else 0) for k in range(n) for l in range(n)] + [cv.unit.same_as(inp["eunit"] ** 2)]) if ok else z3.BoolVal(False)
         sink.check(path, "cov.diagonal_variances", core.SB(cl), site="RVData.cov", describe=desc)
     else:
         cov = _cells(d.rv_err)
         ivc = _cells(iv)
         ok = ivc is not None and ivc.shape == (n, n)
         if ok:
-            cl = z3.And([core.lift(core.sym_sum([cov[k, r] * ivc[r, l] for r in range(n)])) == (1 if k == l else 0) for k in range(n) for l in range(n)] + [iv.unit.same_as(inp["vunit"] ** -2)])
+            cl = z3.And([core.lift(core.sym_sum([cov[k, r] * ivc[r, l] for r in range(n)])) == (1 if k == l else 0) for k in range(n) for l in range(n)] + [iv.unit.same_as(inp["eunit"] ** -2)])
         else:
             cl = z3.BoolVal(False)
         # counterexample models on the scale where absolute tolerances of the code would bite (errors of ~0.1 m/s in km/s)
@@ -349,7 +355,7 @@ def _check_ivar_cov(sink, path, shape, inp, d, desc):
         sink.check(path, "ivar.inverse_covariance", core.SB(cl), site="RVData.ivar", describe=desc, prefer=pref)
         cc = _cells(cv)
         ok = cc is not None and cc.shape == (n, n)
-        cl = z3.And([L(cc[k, l]) == L(cov[k, l]) for k in range(n) for l in range(n)] + [cv.unit.same_as(inp["vunit"] ** 2)]) if ok else z3.BoolVal(False)
+        cl = z3.And([L(cc[k, l]) == L(cov[k, l]) for k in range(n) for l in range(n)] + [cv.unit.same_as(inp["eunit"] ** 2)]) if ok else z3.BoolVal(False)
         sink.check(path, "cov.is_covariance", core.SB(cl), site="RVData.cov", describe=desc)
 
 
@@ -431,6 +437,7 @@ def _replay_once(cand, fill):
     fin = m.get("fin", {})
     scale = f(m.get("vscale", "1"))
     vunit = u.def_unit("vsym", scale * u.m / u.s)
+    eunit = u.def_unit("esym", f(m.get("escale", m.get("vscale", "1"))) * u.m / u.s) if shape.get("err_unit") else vunit
     for i in range(nt):
         if not fin.get("t_%d" % i, True):
             t[i] = fill
@@ -441,14 +448,14 @@ def _replay_once(cand, fill):
         for i in range(nt):
             if not fin.get("err_%d" % i, True):
                 err[i] = np.nan
-        err_q = err * vunit
+        err_q = err * eunit
     else:
         cov = np.array([[f(x) for x in r] for r in m["cov"]])
         for i in range(nt):
             for j in range(nt):
                 if not fin.get("cov_%d_%d" % (i, j), True):
                     cov[i, j] = np.nan
-        err_q = cov * vunit ** 2
+        err_q = cov * eunit ** 2
     if shape["tref"] == "explicit":
         t_ref = Time(f(m.get("t_ref", "0")) + 55000.0, format="mjd", scale="utc")
     elif shape["tref"] == "false":
@@ -518,15 +525,15 @@ def _replay_once(cand, fill):
         td, rd, ed = rows(d)
         if shape["kind"] == "1d":
             try:
-                if not np.allclose(d.ivar.to_value(1 / vunit ** 2) * ed ** 2, 1.0, rtol=1e-9, equal_nan=True):
+                if not np.allclose(d.ivar.to_value(1 / eunit ** 2) * ed ** 2, 1.0, rtol=1e-9, equal_nan=True):
                     bad.append("ivar is not 1/err^2")
-                if not np.allclose(d.cov.to_value(vunit ** 2), np.diag(ed ** 2), rtol=1e-12, equal_nan=True):
+                if not np.allclose(d.cov.to_value(eunit ** 2), np.diag(ed ** 2), rtol=1e-12, equal_nan=True):
                     bad.append("cov is not diag(err^2)")
             except Exception as e:
                 bad.append("ivar/cov have the wrong unit or raise: %s" % str(e)[:120])
         else:
             try:
-                iv = d.ivar.to_value(1 / vunit ** 2)
+                iv = d.ivar.to_value(1 / eunit ** 2)
                 if np.all(np.isfinite(ed)) and np.linalg.cond(ed) < 1e8 and not np.allclose(iv @ ed, np.eye(len(ed)), atol=1e-6):
                     bad.append("ivar is not the inverse covariance")
             except np.linalg.LinAlgError:
